@@ -415,6 +415,12 @@ def run(rep, tier):
         # 'mantissas with hundreds of digits': the 800-digit Decimal of the slow path keeps its count and subscripts in range (shared with C02)
         from . import c02 as _c02
         _c02.clause_digit_capacity(facts, rep)
+    # parseNumber itself, evaluated on a boundary-driven corpus of number texts against exact arithmetic (sv/numvalue.py)
+    from .. import numvalue
+    try:
+        numvalue.clause(get_facts('K1'), rep, tier)
+    except AnalysisBroken as ex:
+        rep.broken.append(str(ex))
     rep.trust('clang 14 front end and constant evaluator', 'Python big integers / fractions', 'Clinger exact fast-path conditions',
               'simd_str2int contract: the digit count it stores never exceeds the requested count')
     rep.assumptions += [
